@@ -16,9 +16,9 @@ type lhsCand struct {
 
 var scalarLhs = map[string][]lhsCand{
 	Things: {{"id", TStr, false}, {"s", TStr, false}, {"ism", TInt, false}, {"ibig", TInt, false}, {"flt", TFloat, false}, {"b", TBool, false}, {"t", TTime, false}, {"grp", TStr, false}, {"owner", TStr, false},
-		{"owner.name", TStr, false}, {"owner.age", TInt, false}, {"owner.active", TBool, false}, {"owner.id", TStr, false},
+		{"owner.name", TStr, false}, {"owner.age", TInt, false}, {"owner.active", TBool, false}, {"owner.id", TStr, false}, {"owner.attrs.k", TAny, false}, {"owner.attrs.n", TAny, false},
 		{"meta.k", TAny, false}, {"meta.n", TAny, false}, {"meta.f", TAny, false}, {"meta.flag", TAny, false}, {"meta.when", TAny, false}, {"meta.a.b", TAny, false}, {"meta.c.b", TAny, false}, {"meta.a.k", TAny, false}, {"meta.missing", TAny, false}},
-	Owners: {{"id", TStr, false}, {"name", TStr, false}, {"age", TInt, false}, {"active", TBool, false}},
+	Owners: {{"id", TStr, false}, {"name", TStr, false}, {"age", TInt, false}, {"active", TBool, false}, {"attrs.k", TAny, false}},
 	Others: {{"id", TStr, false}, {"name", TStr, false}, {"rank", TInt, false}, {"alias", TStr, false}},
 }
 
